@@ -23,6 +23,7 @@ type kvOpts struct {
 	ExtraEvery func(s *kv.Sim, step int) // property-specific periodic judge (views, queries ...)
 	AtEnd      func(s *kv.Sim)
 	BigBodies  int // one in N JSON bodies is 64 KiB - 1 MiB
+	TrailWS    int // one in N JSON bodies ends in insignificant whitespace
 }
 
 func tierN(tier string, quick, thorough int) int {
@@ -146,7 +147,7 @@ func randomPart(name string, quick, thorough int, o kvOpts) sup.Part {
 			if keys == nil {
 				keys = defaultKeys
 			}
-			g := &kv.Gen{R: r, Keys: keys, Colls: cfg.Colls, Bkts: cfg.Buckets, Hnd: cfg.Handles, Big: o.BigBodies, EmptyX: 12}
+			g := &kv.Gen{R: r, Keys: keys, Colls: cfg.Colls, Bkts: cfg.Buckets, Hnd: cfg.Handles, Big: o.BigBodies, EmptyX: 12, TrailWS: o.TrailWS}
 			steps := o.Steps
 			if c.Tier == "thorough" {
 				steps *= 2
